@@ -23,8 +23,9 @@ for i in 1 2; do
   echo "suite run $i with change: ${fails:-all ok}" >> $out
 done
 cp "$demo" $place/zz_seed_demo_test.go
-(cd $place && go test -vet=off -count=1 -timeout 10m -run 'Demo|Seed' . > $src/verify-demo-with.log 2>&1); echo "demo with change: exit $?" >> $out
+TAGS=""; grep -q "go:build verif" "$demo" && TAGS="-tags verif"
+(cd $place && go test $TAGS -vet=off -count=1 -timeout 10m -run 'Demo|Seed' . > $src/verify-demo-with.log 2>&1); echo "demo with change: exit $?" >> $out
 git checkout -q -- . 
-(cd $place && go test -vet=off -count=1 -timeout 10m -run 'Demo|Seed' . > $src/verify-demo-without.log 2>&1); echo "demo without change: exit $?" >> $out
+(cd $place && go test $TAGS -vet=off -count=1 -timeout 10m -run 'Demo|Seed' . > $src/verify-demo-without.log 2>&1); echo "demo without change: exit $?" >> $out
 cd /; git -C /repo worktree remove --force $wt
 cat $out
